@@ -448,15 +448,28 @@ def _t_rc(c):
     return Call("s:r_c_", fn, [s, s], desc=["r_c_", k, n], feats={"fn": "r_c_", "k": k})
 
 
-@template("s:select", "shape")
+@template("s:select", "shape", weight=2)
 def _t_select(c):
-    s = c.shape(1, 2)
-    n = _sz(s)
-    bits = c.int(0, 2 ** min(n, 12) - 1)
-    cond1 = onp.array([(bits >> (i % 12)) & 1 for i in range(n)], dtype=bool).reshape(s)
-    cond2 = ~cond1 if c.bool() else onp.roll(cond1.ravel(), 1).reshape(s)
-    return Call("s:select", lambda ns, x, y: ns.select([cond1, cond2], [x, y], default=0.25), [s, s],
-                desc=["select", list(s), bits], feats={"fn": "select"})
+    res = c.shape(1, 2)
+    bc = c.bool()  # conditions / choices of different (broadcasting) shapes
+    sa, sb = (c.bshape(res), c.bshape(res)) if bc else (res, res)
+
+    def cond():
+        sh = c.bshape(res) if bc and c.bool() else res
+        n = _sz(sh)
+        bits = c.int(0, 2 ** min(n, 12) - 1)
+        return onp.array([(bits >> (i % 12)) & 1 for i in range(n)], dtype=bool).reshape(sh), bits
+
+    (cond1, b1), (cond2, b2) = cond(), cond()
+    k = c.int(0, 2)
+    if k == 0:
+        return Call("s:select", lambda ns, x, y: ns.select([cond1, cond2], [x, y], default=0.25), [sa, sb],
+                    desc=["select", list(res), list(sa), list(sb), list(cond1.shape), list(cond2.shape), b1, b2], feats={"fn": "select", "broadcast": bc, "form": "xy"})
+    if k == 1:
+        return Call("s:select", lambda ns, x: ns.select((cond1, cond2), (x, 1.5)), [sa],
+                    desc=["select", list(res), list(sa), "k", list(cond1.shape), list(cond2.shape), b1, b2], feats={"fn": "select", "broadcast": bc, "form": "xk"})
+    return Call("s:select", lambda ns, x: ns.select([cond1, cond2, ~cond1], [x, 2.0 * x, x * x], 0.0), [sa],
+                desc=["select", list(res), list(sa), "xxx", list(cond1.shape), list(cond2.shape), b1, b2], feats={"fn": "select", "broadcast": bc, "form": "xxx"})
 
 
 @template("s:where", "shape", weight=2)
@@ -466,6 +479,9 @@ def _t_where(c):
     n = _sz(res)
     bits = c.int(0, 2 ** min(n, 12) - 1)
     cond = onp.array([(bits >> (i % 12)) & 1 for i in range(n)], dtype=bool).reshape(res)
+    if c.chance(1, 4):  # the condition itself has a smaller, broadcasting shape
+        sc = c.bshape(res)
+        cond = cond.ravel()[:_sz(sc)].reshape(sc)
     k = c.int(0, 3)  # 0 both arrays differentiated, 1 y python scalar, 2 x python scalar, 3 the condition itself is traced
     if k == 3:
         # a float array used as its own mask: it sits in the non-differentiable slot and in a differentiable one
@@ -473,27 +489,51 @@ def _t_where(c):
                     desc=["where", list(res), "cond=x", list(sa), list(sb)],
                     feats={"fn": "where", "a_shape": list(sa), "b_shape": list(sb), "res_shape": list(res), "const": "cond"})
     if k == 0:
-        return Call("s:where", lambda ns, x, y: ns.where(cond, x, y), [sa, sb], desc=["where", list(res), list(sa), list(sb), bits],
+        return Call("s:where", lambda ns, x, y: ns.where(cond, x, y), [sa, sb], desc=["where", list(res), list(sa), list(sb), bits, list(cond.shape)],
                     feats={"fn": "where", "a_shape": list(sa), "b_shape": list(sb), "res_shape": list(res), "const": None})
     if k == 1:
-        return Call("s:where", lambda ns, x: ns.where(cond, x, 0.3), [sa], desc=["where", list(res), list(sa), "k", bits],
+        return Call("s:where", lambda ns, x: ns.where(cond, x, 0.3), [sa], desc=["where", list(res), list(sa), "k", bits, list(cond.shape)],
                     feats={"fn": "where", "a_shape": list(sa), "res_shape": list(res), "const": "y"})
-    return Call("s:where", lambda ns, y: ns.where(cond, 0.3, y), [sb], desc=["where", list(res), "k", list(sb), bits],
+    return Call("s:where", lambda ns, y: ns.where(cond, 0.3, y), [sb], desc=["where", list(res), "k", list(sb), bits, list(cond.shape)],
                 feats={"fn": "where", "a_shape": list(sb), "res_shape": list(res), "const": "x"})
 
 
-@template("s:clip", "shape", has_kink=True)
+@template("s:clip", "shape", has_kink=True, weight=2)
 def _t_clip(c):
-    s = c.shape(0, 3)
-    lo, hi = c.choice([(-0.7, 0.9), (-1.1, 0.2), (None, 0.6), (-0.4, None)])
-    form = c.int(0, 1)
+    LO, HI = (-0.7, -0.3), (0.6, 0.9)
+    if c.chance(1, 2):
+        s = c.shape(0, 3)
+        lo, hi = c.choice([(-0.7, 0.9), (-0.3, 0.6), (None, 0.6), (-0.7, None)])
+        bk = "scalar"
+    else:
+        # array bounds (constants): same shape, lower rank, or larger than x - NumPy broadcasts x against them
+        res = c.shape(1, 3)
+        s = c.bshape(res) if c.bool() else res
+        def bound(vals):
+            k = c.int(0, 3)
+            if k == 0:
+                return None
+            if k == 1:
+                return vals[c.int(0, 1)]
+            sh = c.bshape(res) if k == 2 else res
+            n = _sz(sh)
+            bits = c.int(0, 2 ** min(n, 10) - 1)
+            return onp.array([vals[(bits >> (i % 10)) & 1] for i in range(n)]).reshape(sh)
+        lo, hi = bound(LO), bound(HI)
+        if lo is None and hi is None:
+            hi = onp.full(res, HI[1])
+        bk = "array"
+    form = c.int(0, 2)
     if form == 0 or not s:
         fn = lambda ns, x: ns.clip(x, lo, hi)
-    else:
+    elif form == 1:
         fn = lambda ns, x: x.clip(lo, hi)
-    avoid = tuple(b for b in (lo, hi) if b is not None)
-    return Call("s:clip", fn, [s], avoid=avoid, desc=["clip", list(s), lo, hi, form],
-                feats={"fn": "clip", "lo": lo, "hi": hi, "form": form}, cplx=False)
+    else:
+        fn = lambda ns, x: ns.clip(x, a_min=lo, a_max=hi)
+    show = lambda b_: b_.tolist() if isinstance(b_, onp.ndarray) else b_
+    return Call("s:clip", fn, [s], avoid=LO + HI, desc=["clip", list(s), show(lo), show(hi), form],
+                feats={"fn": "clip", "lo": show(lo) if bk == "scalar" else None, "hi": show(hi) if bk == "scalar" else None, "form": form, "bounds": bk,
+                       "bound_rank": max(onp.ndim(lo) if lo is not None else 0, onp.ndim(hi) if hi is not None else 0), "x_rank": len(s)}, cplx=False)
 
 
 @template("s:full", "shape")
